@@ -58,7 +58,12 @@ Definition read_xlsx_sheet (grid : list (list xcell)) : result io_err (table xce
 
 (* what a sheet looks like inside the JSON workbook: a list of objects (string members,
    in order) or, for a table without headers, a list of lists *)
-Inductive jsheet := JDicts (l : list (list (str * str))) | JLists (l : list (list str)).
+Inductive jsheet :=
+| JDicts (l : list (list (str * str)))
+| JLists (l : list (list str))
+(* the object form {"headers": [...], "rows": [[...], ...]} (a tree whose `convert` can carry the
+   headers of a sheet without rows) *)
+| JTable (h : list str) (rows : list (list str)).
 
 (* dict(zip(headers, row)): zip stops at the shorter, a repeated key keeps its first
    position and takes the last value *)
@@ -84,7 +89,50 @@ Definition from_dicts (j : jsheet) : result io_err (table str str) :=
     | Err e => Err e
     | Ok t => foldM (fun t d => append t (map snd d)) (d :: ds) t
     end
+  | JTable _ _ => Err EFormat       (* `if not isinstance(pickle, list): raise UnsupportedFormat` *)
   end.
+
+(* ------------------------------------------------------------------ what differs between trees *)
+
+(* How the readers / `convert` of the tree at hand treat rows without content and sheets without
+   rows.  PROBED by the translator (translator/tables_c14.py -> Gen/Tables.v); every definition
+   and fact below is stated for arbitrary flags. *)
+Record reader_flags := {
+  rf_csv_drop : bool;      (* CSVSheetReader omits rows whose every cell is empty *)
+  rf_json_drop : bool;     (* JSONSheetReader omits them *)
+  rf_json_table : bool;    (* JSONSheetReader reads the object form {"headers", "rows"} *)
+  rf_tojson_table : bool   (* converters.to_json writes a sheet WITH headers and WITHOUT rows in that form *)
+}.
+
+(* sheets.drop_empty_rows: `del table[i]` for every row with `all(cell is None or cell == "")` *)
+Definition drop_empty_rows {H} (t : table H str) : table H str :=
+  mkT (hdr t) (filter (existsb nonempty) (rws t)).
+
+Definition drop_if {H} (b : bool) (t : table H str) : table H str := if b then drop_empty_rows t else t.
+
+(* one sheet of converters.to_json *)
+Definition to_json_sheet (fl : reader_flags) (t : table str str) : jsheet :=
+  if rf_tojson_table fl then
+    match hdr t, rws t with
+    | _ :: _, [] => JTable (hdr t) []
+    | _, _ => to_dicts t
+    end
+  else to_dicts t.
+
+(* one sheet of JSONSheetReader: the object form (`table.headers = ...; table.append(row)...`)
+   or `table.dict = content`; then the rows without content go, on a tree that omits them *)
+Definition read_json_sheet (fl : reader_flags) (j : jsheet) : result io_err (table str str) :=
+  let r := match j with
+           | JTable h rows =>
+             if rf_json_table fl then
+               match set_headers empty_table h with
+               | Err e => Err e
+               | Ok t => foldM append rows t
+               end
+             else from_dicts j
+           | _ => from_dicts j
+           end in
+  match r with Err e => Err e | Ok t => Ok (drop_if (rf_json_drop fl) t) end.
 
 (* ------------------------------------------------------------------ workbooks *)
 
@@ -97,11 +145,18 @@ Definition wb_map {S T} (f : S -> T) (wb : workbook S) : workbook T :=
   map (fun p => (fst p, f (snd p))) wb.
 
 Section Readers.
-Variables (delim quote : char) (term : str) (lim : N) (translated : bool).
+Variables (delim quote : char) (term : str) (lim : N) (translated : bool) (fl : reader_flags).
+
+(* CSVSheetReader on one file: load_csv, then the rows without content go, on a tree that omits them *)
+Definition read_csv_sheet (txt : str) : result io_err (table str str) :=
+  match load_csv_text delim quote lim translated txt with
+  | Err e => Err e
+  | Ok t => Ok (drop_if (rf_csv_drop fl) t)
+  end.
 
 (* CSVSheetReader: one (stem, file text) per *.csv file *)
 Definition read_csv_wb (files : workbook str) : result io_err (workbook (table str str)) :=
-  wb_mapM (load_csv_text delim quote lim translated) files.
+  wb_mapM read_csv_sheet files.
 
 (* XLSXSheetReader: one (title, grid of cell values) per worksheet *)
 Definition read_xlsx_wb (sheets : workbook (list (list xcell))) : result io_err (workbook (table xcell str)) :=
@@ -109,10 +164,10 @@ Definition read_xlsx_wb (sheets : workbook (list (list xcell))) : result io_err 
 
 (* JSONSheetReader on data["sheets"] *)
 Definition read_json_wb (b : workbook jsheet) : result io_err (workbook (table str str)) :=
-  wb_mapM from_dicts b.
+  wb_mapM (read_json_sheet fl) b.
 
 (* converters.to_json: the "sheets" member *)
-Definition to_json_wb (wb : workbook (table str str)) : workbook jsheet := wb_map to_dicts wb.
+Definition to_json_wb (wb : workbook (table str str)) : workbook jsheet := wb_map (to_json_sheet fl) wb.
 
 (* the workbook written as a CSV folder with the csv module / tablib export *)
 Definition write_csv_wb (wb : workbook (table str str)) : workbook str :=
